@@ -10,25 +10,34 @@ KNOWN = "known_C13"
 SHARD = 40
 RULE = ("seeded random pairs of real projects over the universe of the property text (0-4 jobs each, overlapping / disjoint "
         "ids, files identical / differing / one-sided with explicit mtimes, nested and empty directories, file-vs-directory "
-        "clashes, job and project documents overlapping / nested / conflicting / mixed-type) x options (strategy None/always/"
-        "never/update/custom, doc_sync default/ByKey(pred|regex)/update/NO_SYNC/COPY, recursive, exclude str/list, selection "
-        "by id/job, check_schema) x entry point (Project.sync, sync_projects, Job.sync, sync_jobs incl. uninitialised jobs and "
-        "jobs with different state points); every successful call is repeated. non-trivial: the call changed the destination "
-        "or raised; distinct by the JSON of the scenario")
+        "clashes, names from filecmp.DEFAULT_IGNORES and names that merely start like the state point / document file, job and "
+        "project documents overlapping / nested / conflicting / mixed-type) x options (strategy None/always/never/update/custom, "
+        "doc_sync default/ByKey(pred|regex)/update/NO_SYNC/COPY, recursive, exclude str/list, selection by id/job incl. foreign "
+        "ids, check_schema) x entry point (Project.sync, sync_projects, Job.sync, sync_jobs incl. uninitialised jobs and jobs with "
+        "different state points); plus the one-file core family (content x mtime x strategy x depth x recursive x entry); every "
+        "successful call is repeated on the tree it left.  non-trivial: the call changed the destination or raised; distinct by "
+        "the JSON of the scenario")
 TRUSTED = [
     "float.__repr__ as an oracle table (documents); re.match outcomes for exclude patterns / regex key strategies as tables "
     "computed by the harness over every name occurring in the scenario",
-    "filecmp.dircmp, shutil.copy/copytree, synced_collections JSON documents are modelled, not verified",
+    "filecmp.dircmp / filecmp.cmp, shutil.copy / copytree, synced_collections JSON documents (write on every assignment, "
+    "json.dumps text) are modelled, not verified; the os.scandir order of every directory and the iteration order of "
+    "list(project) are observed and fed to the model",
     "detect_schema is modelled for flat int/str state points only (set of (key, value))",
+    "with parallel=True/int and an exception the destination tree depends on the schedule: only the exception class and the "
+    "source are compared there (the worker threads are joined before the snapshot: ThreadPool.terminate() does not)",
 ]
 ASSUMPTIONS = ["both workspaces are valid (directory name = id of the state point file)", "no symbolic links",
-               "file mtimes precede the call (set explicitly); preserve_* options at their defaults"]
+               "file mtimes precede the call (set explicitly with os.utime); preserve_* / follow_symlinks at their defaults",
+               "document keys are distinct and contain no '.'"]
 
 
 def gen_inputs(tier, rng):
-    n = 260 if tier == "quick" else 6000
-    return [sync_gen.rand_scenario(rng, PROP) for _ in range(n)]
-
+    n = 400 if tier == "quick" else 8000
+    descs = [sync_gen.rand_scenario(rng, PROP) for _ in range(n)]
+    core = sync_gen.core_file_cases()
+    descs += core if tier != "quick" else rng.sample(core, 80)
+    return descs
 
 def run_case(desc):
     return sync_gen.run_scenario(desc, PROP)
